@@ -52,8 +52,8 @@ _COV = re.compile(r"^<(\w+) line \d+, col \d+ to line \d+, col \d+ of module (\w
 
 def java_cmd(workers: int | str = 1, heap: str | None = None, dfid: bool = False) -> list[str]:
     cmd = ["java", "-Xss64m", "-XX:+UseSerialGC" if str(workers) == "1" else "-XX:+UseParallelGC"]
-    if heap:
-        cmd.append(f"-Xmx{heap}")
+    # without a cap every JVM may grow to a quarter of the machine's memory; eight trace shards then exhaust it
+    cmd.append(f"-Xmx{heap or ('5g' if str(workers) == '1' else '20g')}")
     cmd += ["-cp", f"{JAR}:{DEPS}", "tlc2.TLC"]
     return cmd
 
